@@ -200,6 +200,48 @@ Theorem C09O_compress_kmers_graph_outputs : forall D reduce join K stranded, (1 
 Proof. exact RecompOutKmers.compress_kmers_graph_outputs. Qed.
 Print Assumptions C09O_compress_kmers_graph_outputs.
 
+(* non-vacuity of the hypotheses on the table: the count-filtered table of C09X_nonvacuous_table (the canonical 4-mers
+   of ACGTTGCAACTCCGA with extensions derived from membership, the entry of CTCC removed afterwards) *)
+From DBG Require Check.CompressHyp Proofs.CompressHypProofs.
+Definition C09O_ex_keys : list dna :=
+  nodup (list_eq_dec N.eq_dec) (map canon (kmers 4 [0;1;2;3;3;2;1;0;0;1;3;1;1;2;0]%N)).
+Definition C09O_ex_table0 : Compress.table rpay :=
+  map (fun p => (fst p, Compress.derive_exts false C09O_ex_keys (fst p), (0%N, [N.of_nat (snd p)])))
+      (combine C09O_ex_keys (seq 0 (length C09O_ex_keys))).
+Definition C09O_ex_table : Compress.table rpay := firstn 7 C09O_ex_table0 ++ skipn 8 C09O_ex_table0.
+Example C09O_nonvacuous_table :
+  CompressSpec.tbl_ok rpay 4 false C09O_ex_table /\ CompressSpec.exts_sym rpay false C09O_ex_table /\
+  CompressGraphOk.exts_sym_pal rpay false C09O_ex_table /\
+  exists nodes, Compress.compress_kmers rpay rpay_reduce (rpay_join 1) false C09O_ex_table = Some nodes /\
+    length nodes = 6%nat /\ ~ rvalid rpay 4 false nodes /\
+    exists out paths, compress_graph_paths rpay rpay_reduce (rpay_join 1) 4 false nodes (Some [1%nat]) = Some (out, paths) /\
+      length out = 4%nat /\ out_maximal rpay (rpay_join 1) 4 false out /\ rvalid rpay 4 false out /\
+      is_compressed rpay (rpay_join 1) 4 false out = None.
+Proof.
+  assert (H1 : CompressSpec.tbl_ok rpay 4 false C09O_ex_table)
+    by (apply CompressHypProofs.tbl_okb_sound; vm_compute; reflexivity).
+  assert (H2 : CompressSpec.exts_sym rpay false C09O_ex_table)
+    by (apply CompressHypProofs.exts_symb_sound; vm_compute; reflexivity).
+  assert (H3 : CompressGraphOk.exts_sym_pal rpay false C09O_ex_table)
+    by (apply CompressGraphOk.exts_sym_palb_sound; vm_compute; reflexivity).
+  split; [exact H1|]. split; [exact H2|]. split; [exact H3|].
+  destruct (C09O_compress_kmers_graph_outputs rpay rpay_reduce (rpay_join 1) 4 false (le_n_S _ _ (Nat.le_0_l _))
+              (C09O_congruent_rpay 1) C09O_ex_table H1 H2 H3) as (nodes & Hc & Hall).
+  exists nodes. split; [exact Hc|].
+  assert (E : Compress.compress_kmers rpay rpay_reduce (rpay_join 1) false C09O_ex_table =
+              Some [ ([0;1;2;3], 129, (0,[0])); ([0;0;1;2], 130, (0,[1])); ([3;2;1;0], 24, (0,[2])); ([2;1;0;0;1], 200, (0,[3;4]));
+                     ([0;0;1;3;1], 34, (0,[5;6])); ([3;1;2;2;0], 64, (0,[8;9])) ]) by (vm_compute; reflexivity).
+  rewrite E in Hc. injection Hc as <-.
+  split; [reflexivity|]. split.
+  { intros (_ & _ & _ & _ & Hres & _).
+    apply (Hres 4%nat DRight 1 ([0;0;1;3;1], 34, (0,[5;6]))); [reflexivity | cbn; auto | vm_compute; reflexivity | vm_compute; reflexivity]. }
+  destruct (Hall (Some [1%nat])) as (out & paths & Hg & M & R & _ & I & _).
+  exists out, paths. split; [exact Hg|].
+  assert (L : option_map (fun x => length (fst x)) (Some (out, paths)) = Some 4%nat) by (rewrite <- Hg; vm_compute; reflexivity).
+  cbn in L. injection L as L. auto.
+Qed.
+Print Assumptions C09O_nonvacuous_table.
+
 (* ---- non-vacuity ------------------------------------------------------------------------------------------------------- *)
 (* K = 4, unstranded, harness payloads with mode 1 (join = equal colours; congruent).  AACCG (colour 0) -> CCGTT (colour 0)
    -> TCAAC (colour 1; traversed flipped: GTTGA), plus an isolated node; dangling bits on nodes 0, 2, 3 (the graph is
